@@ -169,22 +169,30 @@ func (c20) Gen(r *simrt.Rand, idx int, tier string) *Case {
 			// drain every holding of the valuation commodity, one booking per day
 			// and nothing else on those days: afterwards that commodity is worth
 			// exactly nothing, and the reports that follow must say so
-			hold := map[string]Q{}
+			// (or, at some rate, every holding of every commodity: the portfolio is liquidated)
+			all := r.P(0.4)
+			type pos struct{ a, c string }
+			hold := map[pos]Q{}
 			for _, p := range c.J.Postings() {
-				if isAL(p.Account) && p.Com == c.Val {
-					hold[p.Account] += p.Qty
+				if isAL(p.Account) && (p.Com == c.Val || all) {
+					hold[pos{p.Account, p.Com}] += p.Qty
 				}
 			}
-			var accs []string
+			var accs []pos
 			for a, q := range hold {
 				if q != 0 {
 					accs = append(accs, a)
 				}
 			}
-			sort.Strings(accs)
+			sort.Slice(accs, func(i, j int) bool {
+				if accs[i].a != accs[j].a {
+					return accs[i].a < accs[j].a
+				}
+				return accs[i].c < accs[j].c
+			})
 			d := max + 2
 			for _, a := range accs {
-				c.J.Dirs = append(c.J.Dirs, Dir{Kind: "txn", Date: d, Desc: "drain", Bookings: []Booking{{Credit: a, Debit: "Equity:Equity", Qty: hold[a], Com: c.Val}}})
+				c.J.Dirs = append(c.J.Dirs, Dir{Kind: "txn", Date: d, Desc: "drain", Bookings: []Booking{{Credit: a.a, Debit: "Equity:Equity", Qty: hold[a], Com: a.c}}})
 				d += Day(r.Range(1, 3))
 			}
 			if len(accs) > 0 {
@@ -238,6 +246,12 @@ func genPortfolioJournal(r *simrt.Rand, noflows bool) (*Journal, string) {
 	if noflows {
 		for k := 0; k < 3; k++ {
 			j.Dirs = append(j.Dirs, Dir{Kind: "txn", Date: start, Desc: "fund", Bookings: []Booking{{Credit: "Equity:Equity", Debit: "Assets:Broker", Qty: Q(r.Range(1, 500)) * QScale, Com: coms[k]}}})
+		}
+		if r.P(0.4) {
+			// a leveraged book: a loan of about the portfolio's size, so that the net
+			// value can become negative when prices move
+			j.Dirs = append(j.Dirs, Dir{Kind: "open", Date: start, Account: "Liabilities:Loan"})
+			j.Dirs = append(j.Dirs, Dir{Kind: "txn", Date: start, Desc: "loan", Bookings: []Booking{{Credit: "Liabilities:Loan", Debit: "Equity:Equity", Qty: Q(r.Range(1, 60000)) * QScale, Com: "CHF"}}})
 		}
 		for k := r.Range(3, 25); k > 0; k-- {
 			d := start + Day(r.Range(5, span))
@@ -449,6 +463,24 @@ func (c20) Eval(c *Case) (*Violation, bool) {
 				}
 			}
 		}
+		// a date on which the balance shows no holding at all: nothing has a share
+		for i, h := range hdr {
+			bi := colOf[h]
+			held := false
+			for _, v := range val {
+				if v[bi] != 0 {
+					held = true
+				}
+			}
+			if held {
+				continue
+			}
+			for _, r := range rows {
+				if w, ok := pct(r.Cells[i]); ok && !(math.Abs(w) <= 1e-9) {
+					return &Violation{Signature: "weight-without-holdings", Msg: fmt.Sprintf("%s at %s shows %s although the valued balance shows no holding at all on that date", strings.Join(r.Path, "/"), h, r.Cells[i]), Detail: fmt.Sprintf("argv: %v\n%s\n%s", argv, ow.Stdout, ob.Stdout)}, false
+				}
+			}
+		}
 		// every node shows the sum of the commodities shown at or below it
 		for _, r := range rows {
 			key := strings.Join(r.Path, "/")
@@ -465,7 +497,7 @@ func (c20) Eval(c *Case) (*Violation, bool) {
 						members++
 					}
 				}
-				if math.Abs(own[key][i]-want) > 1e-6*float64(members+1)+1e-7/math.Abs(total[bi]) {
+				if !(math.Abs(own[key][i]-want) <= 1e-6*float64(members+1)+1e-7/math.Abs(total[bi])) {
 					sig := "wrong-weight"
 					if members > 1 {
 						sig = "group-not-sum-of-members"
@@ -546,7 +578,7 @@ func (c20) Eval(c *Case) (*Violation, bool) {
 		switch c.Sub {
 		case "returns-flows-only":
 			for _, l := range lines {
-				if math.Abs(l.p) > 0.06 {
+				if !(math.Abs(l.p) <= 0.06) {
 					return &Violation{Signature: "return-nonzero-without-price-change", Msg: fmt.Sprintf("period ending %s: %.1f%% although prices never change and all flows are external", l.d, l.p), Detail: or.Stdout}, false
 				}
 			}
@@ -593,7 +625,7 @@ func (c20) Eval(c *Case) (*Violation, bool) {
 					continue // the very first period holds the funding
 				}
 				want := (tot[order[g]]/tot[order[g-1]] - 1) * 100
-				if math.Abs(l.p-want) > 0.06 {
+				if !(math.Abs(l.p-want) <= 0.06+1e-9*math.Abs(want)) {
 					return &Violation{Signature: "wrong-return", Msg: fmt.Sprintf("period ending %s: %.1f%%, end value / start value - 1 = %.3f%%", l.d, l.p, want), Detail: fmt.Sprintf("argv: %v\n%s\n%s", argv, or.Stdout, of.Stdout)}, false
 				}
 			}
